@@ -294,6 +294,14 @@ func (x *Exec) merge(g *Term, a, b Val) Val {
 		if av == nil && bv == nil {
 			return av
 		}
+		// a function variable that is nil on one side (e.g. a captured closure cell before its guarded initial
+		// store): keep the function; a call through the nil side would be a nil-call panic in the program itself
+		if av == nil {
+			return bv
+		}
+		if bv == nil {
+			return av
+		}
 		if av != nil && bv != nil && av.Fn == bv.Fn && len(av.Binds) == len(bv.Binds) {
 			r := &FuncV{Fn: av.Fn, Binds: make([]Val, len(av.Binds))}
 			for i := range av.Binds {
